@@ -26,7 +26,8 @@ Consume ==
            (IF s.tables # tables THEN {"tables_constant"} ELSE {})
            \cup (IF \E i \in 1..Len(returned) : i > Len(s.symbols) \/ s.symbols[i] # returned[i] THEN {"returned_symbols_immutable"} ELSE {})
            \cup (IF s.args_before # s.args_after THEN {"arguments_unchanged"} ELSE {})
-           \cup (IF s.what = "return" /\ s.result # memo[s.call] THEN {"deterministic_result"} ELSE {})
+           \* "return_untracked": free-running threads log the result only (the returned objects are not kept, so there is nothing to re-digest)
+           \cup (IF s.what \in {"return", "return_untracked"} /\ s.result # memo[s.call] THEN {"deterministic_result"} ELSE {})
            \cup (IF s.what = "reencode" /\ s.result # memo[s.call] THEN {"reencode_identical"} ELSE {})
      IN /\ fails' = fails \cup newfails
         /\ tables' = tables                     \* the specification never changes the tables; a different digest is a failing clause
